@@ -108,6 +108,7 @@ type Explorer struct {
 	Samples  []string
 	Oblig    string
 	MapOrderNondet bool
+	RaceCheck      bool // happens-before race detection on heap cells and maps
 	PathVectors []PathVector // input vectors of completed paths (for translator validation)
 	MaxVectors  int
 	Params   map[string]int
